@@ -16,30 +16,12 @@
    marker sizes are reduced fractions (num, den), z-orders are in quarter units; colours and marker shapes are indices into
    the harness palettes (opaque tokens here, index 0 = the default "tab:blue" / "o"). *)
 From Coq Require Import ZArith List Bool.
-From Mesa Require Import Common.ListX Generated.Tables.
+From Mesa Require Import Common.ListX.
+From Mesa Require Export Common.VizTypes.
+From Mesa Require Import Generated.Tables.
 Import ListNotations.
 Open Scope Z_scope.
 
-Definition coord := (Z * Z)%type.
-Definition coord_eqb (a b : coord) : bool := (fst a =? fst b) && (snd a =? snd b).
-
-(* ------------------------------------------------------------------ small list helpers *)
-(* numpy boolean-mask indexing  v[mask] *)
-Fixpoint select {A : Type} (mask : list bool) (l : list A) : list A :=
-  match mask, l with
-  | b :: m, x :: t => if b then x :: select m t else select m t
-  | _, _ => []
-  end.
-
-Fixpoint map2 {A B C : Type} (f : A -> B -> C) (la : list A) (lb : list B) : list C :=
-  match la, lb with
-  | a :: ta, b :: tb => f a b :: map2 f ta tb
-  | _, _ => []
-  end.
-
-Definition memz (n : Z) (l : list Z) : bool := existsb (Z.eqb n) l.
-
-Definition nthz {A : Type} (i : Z) (l : list A) (d : A) : A := nth (Z.to_nat i) l d.
 
 (* lexicographic order on rows, insertion sort: canonical order of an observation *)
 Fixpoint lex_leb (a b : list Z) : bool :=
@@ -89,10 +71,10 @@ Definition addr_coord (sp : space) (x y : Z) : coord :=
 (* --- per-family transformation of the loc column before _scatter --- *)
 (* draw_hex_grid:  loc[:,0] = loc[:,0]*x_spacing + ((loc[:,1]-1) % 2)*(x_spacing/2);  loc[:,1] *= y_spacing *)
 Definition hex_center (p : coord) : coord :=
-  (2 * fst p + (snd p - gen_viz_hex_row_offset) mod 2, 3 * snd p).   (* K re-read from the source (T1) *)
+  (2 * fst p + (snd p - 1) mod 2, 3 * snd p).      (* = the translated source: Proofs/VizBridge.v *)
 (* _get_hexmesh:  x = col*x_spacing + (row % 2 == 0)*(x_spacing/2);  y = row*y_spacing *)
 Definition mesh_center (col row : Z) : coord :=
-  (2 * col + (if row mod 2 =? gen_viz_mesh_shift_parity then 1 else 0), 3 * row).
+  (2 * col + (if row mod 2 =? 0 then 1 else 0), 3 * row).
 
 Definition draw_loc (sp : space) (p : coord) : coord :=
   match sp_family sp with
@@ -113,17 +95,11 @@ Definition extent (sp : space) : Z :=
   | Net | Voro => Z.max (span (map fst (sp_points sp))) (span (map snd (sp_points sp)))
   end.
 
-Definition reduce (q : Z * Z) : Z * Z :=
-  let g := Z.gcd (fst q) (snd q) in if g =? 0 then q else (fst q / g, snd q / g).
 Definition dflt_size (sp : space) : Z * Z :=
   reduce (gen_viz_size_base * gen_viz_size_base, extent sp * extent sp).   (* 180: re-read from the source (T1) *)
 
 (* ------------------------------------------------------------------ agents and portrayal *)
-Record agent := { a_id : Z; a_kind : Z; a_pos : option coord; a_cell : option coord }.
 
-(* what agent_portrayal(agent) returns: the four keys of the statement, each optional *)
-Record pdict := { pd_size : option Z; pd_color : option Z; pd_marker : option Z; pd_zorder : option Z }.
-Definition pd_empty : pdict := {| pd_size := None; pd_color := None; pd_marker := None; pd_zorder := None |}.
 Definition portrayal := list (Z * pdict).        (* agent kind -> dict *)
 Fixpoint portray (pt : portrayal) (k : Z) : pdict :=
   match pt with
@@ -135,16 +111,11 @@ Fixpoint portray (pt : portrayal) (k : Z) : pdict :=
 Definition DEF_COLOR : Z := gen_viz_default_color.
 Definition DEF_MARKER : Z := gen_viz_default_marker.
 Definition DEF_ZORDER : Z := 4 * gen_viz_default_zorder.      (* quarter units *)
-Definition get {A : Type} (o : option A) (d : A) : A := match o with Some x => x | None => d end.
 
 (* loc = agent.pos;  if loc is None: loc = agent.cell.coordinate   (None: AttributeError) *)
 Definition agent_loc (a : agent) : option coord :=
   match a_pos a with Some p => Some p | None => a_cell a end.
 
-(* the dict of columns built by collect_agent_data *)
-Record cols := {
-  cl_loc : list coord; cl_s : list (Z * Z); cl_c : list Z; cl_m : list Z; cl_z : list Z }.
-Definition cols_empty : cols := {| cl_loc := []; cl_s := []; cl_c := []; cl_m := []; cl_z := [] |}.
 
 (* portrayal sizes and z-orders are floats in Matplotlib; the histories give them in QUARTER units
    (size 7 = 1.75, zorder 6 = 1.5) so that any truncation / coercion on the way is visible *)
@@ -170,24 +141,9 @@ Definition collect_step (pt : portrayal) (dflt : Z * Z) (acc : option cols) (a :
 Definition collect (pt : portrayal) (dflt : Z * Z) (agents : list agent) : option cols :=
   fold_left (collect_step pt dflt) agents (Some cols_empty).
 
-(* one marker as it reaches Matplotlib *)
-Record mark := { m_loc : coord; m_s : Z * Z; m_c : Z; m_m : Z; m_z : Z }.
 Definition mark_row (m : mark) : list Z :=
   [fst (m_loc m); snd (m_loc m); fst (m_s m); snd (m_s m); m_c m; m_m m; m_z m].
 
-(* one ax.scatter call of _scatter *)
-Record group := {
-  g_marker : Z; g_zorder : Z;
-  g_x : list Z; g_y : list Z; g_s : list (Z * Z); g_c : list Z }.
-
-Fixpoint zip_marks (mk z : Z) (xs ys : list Z) (ss : list (Z * Z)) (cs : list Z) : list mark :=
-  match xs, ys, ss, cs with
-  | x :: xs', y :: ys', s :: ss', c :: cs' =>
-      {| m_loc := (x, y); m_s := s; m_c := c; m_m := mk; m_z := z |} :: zip_marks mk z xs' ys' ss' cs'
-  | _, _, _, _ => []
-  end.
-Definition group_marks (g : group) : list mark :=
-  zip_marks (g_marker g) (g_zorder g) (g_x g) (g_y g) (g_s g) (g_c g).
 
 (* _scatter:  for mark in set(marker): for z_order in np.unique(zorder): scatter(x[logical], ...)
    set(marker) iterates in an order the statement does not fix: first-occurrence order is used
@@ -217,8 +173,6 @@ Definition draw_groups (sp : space) (pt : portrayal) (agents : list agent) : opt
 Definition drawn_marks (gs : list group) : list mark := flat_map group_marks gs.
 
 (* ------------------------------------------------------------------ Altair *)
-(* one dict of chart.data.values: the portrayal's own keys plus x, y *)
-Record arow := { ar_loc : coord; ar_d : pdict }.
 Definition oflag {A : Type} (o : option A) : Z := match o with Some _ => 1 | None => 0 end.
 Definition arow_row (r : arow) : list Z :=
   [fst (ar_loc r); snd (ar_loc r);
@@ -255,12 +209,6 @@ Definition altair_data (sp : space) (pt : portrayal) (agents : list agent) : opt
   else None.
 
 (* ------------------------------------------------------------------ property layers *)
-Definition layer := list (list Z).                       (* data[x][y], shape (width, height) *)
-Definition dget (d : layer) (x y : Z) : Z := nthz y (nthz x d []) 0.
-(* data.T : rows of the image, row y = [data[0][y], data[1][y], ...] *)
-Definition transpose (w h : Z) (d : layer) : list (list Z) :=
-  map (fun y => map (fun x => dget d x y) (zrange 0 (w - 1))) (zrange 0 (h - 1)).
-Definition ravel (rows : list (list Z)) : list Z := concat rows.
 
 Definition clip (lo hi v : Z) : Z := Z.max lo (Z.min hi v).
 
@@ -304,25 +252,6 @@ Definition layer_view (sp : space) (d : layer) : list (option Z) :=
     end) (zrange 0 (w - 1))) (zrange 0 (h - 1)).
 
 (* ------------------------------------------------------------------ _check_model_params *)
-Inductive pkind := PosOnly | PosOrKw | VarPos | KwOnly | VarKw.
-Definition pkind_eqb (a b : pkind) : bool :=
-  match a, b with
-  | PosOnly, PosOnly | PosOrKw, PosOrKw | VarPos, VarPos | KwOnly, KwOnly | VarKw, VarKw => true
-  | _, _ => false
-  end.
-(* one entry of inspect.signature(init_func).parameters: name, kind, has a default *)
-Record param := { pn : Z; pk : pkind; pdef : bool }.
-Definition is_kind (k : pkind) (p : param) : bool := pkind_eqb (pk p) k.
-Definition SELF : Z := 0.                     (* the name "self" *)
-
-Definition E_VARARGS : Z := 1.
-Definition E_MISSING : Z := 2.
-Definition E_INVALID : Z := 3.
-Definition E_POSONLY : Z := 4.
-
-(* model_parameters.get(name): a dict lookup by name *)
-Definition lookup_param (s : list param) (n : Z) : option param := find (fun p => pn p =? n) s.
-Definition kw_passable (p : param) : bool := is_kind PosOrKw p || is_kind KwOnly p.
 
 (* body of the first loop for one parameter: 0 = nothing raised *)
 Definition param_problem (ps : list Z) (p : param) : Z :=
@@ -330,8 +259,6 @@ Definition param_problem (ps : list Z) (p : param) : Z :=
   else if is_kind PosOnly p then (if pdef p then 0 else E_POSONLY)
   else if negb (pdef p) && negb (memz (pn p) ps) then E_MISSING
   else 0.
-Fixpoint first_nonzero (l : list Z) : Z :=
-  match l with [] => 0 | x :: t => if x =? 0 then first_nonzero t else x end.
 
 (* body of the second loop for one given name: true = raises "Invalid model parameter" *)
 Definition name_invalid (s : list param) (has_kw : bool) (n : Z) : bool :=
@@ -371,9 +298,6 @@ Definition bindable (s : list param) (ps : list Z) : bool :=
   end.
 
 (* ------------------------------------------------------------------ split_model_params *)
-(* a value of the model_params dict: fixed value, Slider object, dict with / without "type";
-   the integer is the payload (what must not get lost) *)
-Inductive pvalue := VFixed (v : Z) | VSlider (v : Z) | VDictType (v : Z) | VDictNoType (v : Z).
 (* check_param_is_fixed: False / True / True / falls off the end (None) *)
 Definition check_param_is_fixed (v : pvalue) : option bool :=
   match v with
@@ -382,7 +306,6 @@ Definition check_param_is_fixed (v : pvalue) : option bool :=
   | VDictNoType _ => Some true
   | VDictType _ => None
   end.
-Definition truthy (o : option bool) : bool := match o with Some true => true | _ => false end.
 Definition split_step (acc : list (Z * pvalue) * list (Z * pvalue)) (kv : Z * pvalue) :=
   if truthy (check_param_is_fixed (snd kv)) then (fst acc, snd acc ++ [kv])
   else (fst acc ++ [kv], snd acc).
